@@ -482,7 +482,8 @@ func (self *PathNode) handleChild(in *[]PathNode, lp *int, cp *int, p *binary.Bi
 
 	if tt.IsComplex() {
 		if recurse {
-			p.Buf = p.Buf[start:]
+			// the recursive scan must not read beyond the child node
+			p.Buf = p.Buf[start:p.Read]
 			p.Read = 0
 			parentDesc := desc
 			messageLen := 0
